@@ -651,7 +651,11 @@ func c18Run(e *core.Env) {
 				break
 			}
 			t0 := time.Now()
+			ex.Stop = e.Expired
 			ex.Explore()
+			if ex.Capped {
+				e.Cap(fmt.Sprintf("soft deadline inside scenario %q at preemption bound %d after %d executions on this worker", sc.Name, b, ex.Execs))
+			}
 			// final global dump for this exploration
 			r.forceGlobals = true
 			r.s.Run(r.bodies(), nil)
